@@ -3,6 +3,7 @@ CONSTANTS
   Rec = {1, 2}
   Thread = {1}
   Orig = {1, 2}
+  MaxNest = 1
   Deviations = {"release_per_handle"}
 SPECIFICATION Spec
 VIEW View
